@@ -10,6 +10,18 @@ var verifCorpus = [...]string{
 	"[[ a \x01= b ]]", "[[ -n a \x01& b ]]", "[[ ! a\x01 ]]", "a=(b \x01 c)", "a=([b]=c\x01)", "a+=\x01b", "a[1]=\x01", "declare -a a=(\x01)", "export a=\x01b c", "let a\x01=1",
 	"echo \"a\x01b\" 'c\x01d' $'e\x01f'", "echo a\\\x01b", "echo $(a\x01b)", "echo `a\x01b`", "echo $(a; \x01b)", "echo <(a\x01)", "echo a{b,\x01}", "echo ~\x01", "echo *\x01?", "echo ?(a\x01)",
 	"# c\x01\na", "a # c\x01\nb", "a \\\n\x01b", "a;\x01\n\nb", "a\n\n\n\x01b", "a &\x01\nb", "{\n\ta\x01\n}", "(\n\ta\x01\n)", "a |\n\x01b", "a &&\n\x01b",
+	// heredocs combined with operators, comments and other heredocs
+	"a <<E | b\nx\x01\nE\n", "a <<E && b\nx\nE\n\x01", "a <<E |\x01#c\nE\nb", "a <<E &&#c\x01\nE\nb", "<<a <<b\na\nx\x01\nb\n", "a <<E <<F\nx\nE\ny\x01\nF\n", "a <<-E <<F\n\tx\n\tE\ny\x01\nF\n",
+	"if a <<E\nx\nE\nthen b\x01 fi", "a <<E; b\nx\x01\nE\n", "( a <<E\nx\x01\nE\n)", "$(a <<E\nx\nE\n)\x01", "{ a <<E\nx\nE\n}\x01", "a <<E #c\x01\nx\nE\n", "a <<E\nx\nE\n#c\x01\nb", "a <<'E'\n$x\x01\nE\n", "a <<E\n$x\x01 ${y}\nE\n",
+	"while a <<E\nx\nE\ndo b\x01 done", "a() { b <<E\nx\x01\nE\n}", "a <<E |\nx\nE\n\x01b", "a <<E\n\\\x01\nE\n",
+	// comments next to operators and delimiters
+	"a |#c\x01\nb", "a &&#c\n\x01b", "a | b #c\x01\n", "case a in #c\x01\nb) ;; esac", "case a in b) #c\x01\n;; esac", "case a in b) c ;; #d\x01\nesac", "if a; then #c\x01\nb; fi", "{ #c\x01\na; }", "( #c\x01\na )", "a=( #c\x01\nb )", "a && #c\n#d\x01\nb", "`a #c\x01`", "$(a #c\x01\n)",
+	// nested parentheses and brackets broken over lines
+	"( (a)\n\x01)", "((a)\x01\n)", "([[ a\n]]\x01)", "( ( a )\x01 )", "$( (a)\x01 )", "[[ a\n&& b\x01 ]]", "[[ (a\x01) ]]", "(a; (b)\x01)", "{ (a)\x01; }",
+	// empty bodies, brace-named redirections, slices, declarations
+	"{ \x01}", "( \x01)", "if a; then\x01 fi", "while a; do\x01 done", "a() {\x01 }", "case a in b)\x01 esac", "for i in\x01; do a; done",
+	"{a\x01}>b", "{a[1\x01}<b", "a {b}>\x01c", "a {b\x01}<&-", "${a:\x01:2}", "${a::\x01}", "${a:1:\x01}", "${a[@]:\x01:1}", "${!a\x01}", "${a/b/\x01}", "${a//\x01/c}", "${a^\x01}", "${a@\x01}",
+	"declare -\x01 a=b", "local a\x01 b=c", "readonly a=(b\x01)", "export -p\x01", "[[ a != \"$x\"\x01 ]]", "[[ a == \x01\"$x\" ]]", "[[ $a =~ b\x01 ]]", "[ a \x01= b ]", "echo $((${a}\x01 + 1))", "echo $(($a\x01))", "a=$(($b\x01))",
 	"coproc a { b\x01 }", "time a\x01 b", "select i in a\x01 do b; done", "a() ( b\x01 )", "eval \"a\x01\"", "trap 'a\x01' EXIT", "((a\x01))", "(( a ? b \x01 c ))", "$[a\x01b]",
 }
 
@@ -33,4 +45,25 @@ func Verif_c01_corpus() {
 		}
 	}
 	verifRoundTrip(src, lang, mode)
+}
+
+// Verif_c05_corpus: the comment-preservation oracle on the corpus programs
+// with one symbolic byte and symbolic printer options.
+func Verif_c05_corpus() {
+	lang := verifLang(verifParam("lang"))
+	k := verifParam("prog")
+	if k < 0 {
+		k = verifChoice("prog", len(verifCorpus))
+	}
+	src := []byte(verifCorpus[k])
+	hole := verifByte("hole")
+	if verifParam("alpha") == 1 {
+		verifAssume(verifInSet(hole, verifSigmaSh))
+	}
+	for i := range src {
+		if src[i] == 1 {
+			src[i] = hole
+		}
+	}
+	verifCommentsKept(src, lang)
 }
